@@ -13,6 +13,7 @@ from ..terms import clear_typelib_caches, project, vkey
 from ..typeterms import lit_value, values
 from .c01 import union_sigs
 from .c03 import shape
+from .c01 import composite_key, composite_key_in_union
 
 
 class MyInt(int):
@@ -83,11 +84,9 @@ def bad_key_owner(T, w, defs, depth=0):
     if depth > 20 or not isinstance(w, dict):
         return ""
     if T.get("k") == "union":
-        for m in T["xs"]:
-            r = bad_key_owner(m, w, defs, depth + 1)
-            if r:
-                return r
-        return ""
+        rs = [r for r in (bad_key_owner(m, w, defs, depth + 1) for m in T["xs"]) if r]
+        # a member whose structure does not fit the value can only answer "any": prefer the member that does fit
+        return next((r for r in rs if r not in ("any", "?")), rs[0] if rs else "")
     if w.get("k") == "dict" and T.get("k") not in ("map", "cls", "any"):
         return ""
     if w.get("k") == "dict":
@@ -191,7 +190,9 @@ def _violations(rejects, events, meta):
             clause=r["clause"], case={"T": e["T"], "value_kind": m[0], "value_repr": m[1]},
             fields={"root_shape": shape(e["T"]), "value_kind": m[0], "raised": e["w"].get("e", ""),
                     "leaf_clause": ".".join(r["clause"].split(".")[-2:]),
-                    "bad_key_owner": bad_key_owner(e["T"], e["w"].get("r", {}), DEFS[0]) if "dict.key" in r["clause"] else ""},
+                    "bad_key_owner": bad_key_owner(e["T"], e["w"].get("r", {}), DEFS[0]) if "dict.key" in r["clause"] else "",
+                    "composite_key": composite_key(e["T"], DEFS[0]) if e["T"].get("k") != "any" else False,
+                    "composite_key_in_union": composite_key_in_union(e["T"], DEFS[0]) if e["T"].get("k") != "any" else False},
             msg=f"T={json.dumps(e['T'])[:140]} v={m[1]} ({m[0]}) -> {json.dumps(e['w'])[:200]}"))
     return out
 
